@@ -564,3 +564,149 @@ def root_query():
     else:
         res.update(verdict="INCONCLUSIVE", detail=f"solver {r}, twin {tw}, blocks {len(blocks)}", solver_s=time.time() - t0)
     return res
+
+
+# ---------------------------------------------------------------------------------------------------------------------
+# C10: operator precedence and left associativity of the real table (LA-PREC)
+# ---------------------------------------------------------------------------------------------------------------------
+
+PREC_REPLAY = '''# replay: the normal form the real pipeline stores for ( 1 OP1 2 OP2 3 ), against a precedence-climbing reference
+import sys, logging
+logging.disable(logging.CRITICAL)
+import mappyfile
+op1, op2, c1, c2 = %r, %r, %d, %d      # classes: 0 OR, 1 AND, 2 comparison, 3 additive, 4 multiplicative
+def join(cls, a, op, b):
+    if cls == 0:
+        return "( " + a + " OR " + b + " )"
+    if cls == 1:
+        return "( " + a + " AND " + b + " )"
+    if cls == 2:
+        return "( " + a + " " + op + " " + b + " )"
+    return a + " " + op + " " + b
+if c1 >= c2:            # left operator binds at least as tightly (all binary operators are left-associative)
+    exp = join(c2, join(c1, "1", op1, "2"), op2, "3")
+else:
+    exp = join(c1, "1", op1, join(c2, "2", op2, "3"))
+if not (exp.startswith("(") and exp.endswith(")") and exp.count("(") == exp.count(")") and c1 != c2 or (min(c1, c2) <= 2)):
+    exp = "(" + exp + ")"
+text = "CLASS EXPRESSION ( 1 " + op1 + " 2 " + op2 + " 3 ) END"
+try:
+    got = mappyfile.loads(text)["expression"]
+except Exception as ex:
+    print(text, "->", type(ex).__name__)
+    sys.exit(1)
+print(text, "->", got, "| expected", exp)
+sys.exit(0 if got.replace(" ", "") == exp.replace(" ", "") or got.replace(" ", "") == ("(" + exp + ")").replace(" ", "") else 1)
+'''
+
+
+def prec_query(steps=64, depth=16):
+    """( 1 OP1 2 OP2 3 ) with OP1, OP2 symbolic over every binary operator terminal of the grammar (OR / ||, AND / &&, the 19
+    comparison spellings, + -, * / ^): the real table accepts every pair; when the two operators are of different precedence
+    classes the tighter one's rule reduces first, and when they are of the same class the left one reduces before the third
+    operand is shifted (left associativity).  Classes (loosest first): OR < AND < comparison < additive < multiplicative."""
+    import z3
+    t0 = time.time()
+    M = model()
+    V = M.V
+
+    # precedence classes by operator SPELLING, from the property statement (independent of how the grammar groups them)
+    spell_classes = [{"OR", "||"}, {"AND", "&&"},
+                     {">=", "<", "=*", "==", "=", "!=", "~", "~*", ">", "%", "<=", "IN", "NE", "EQ", "LE", "LT", "GE", "GT", "LIKE"},
+                     {"+", "-"}, {"*", "/", "^"}]
+    term_of = {}
+    for t in M.P.lalr.terminals:
+        if type(t.pattern).__name__ == "PatternStr":
+            term_of[t.pattern.value.upper()] = t.name
+    classes = []
+    for sc_ in spell_classes:
+        classes.append({term_of[sp] for sp in sc_ if sp in term_of and term_of[sp] in M.tid})
+    cmp_terms = classes[2]
+    if not all(classes) or len(cmp_terms) < 10:
+        return {"verdict": "INCONCLUSIVE", "detail": f"operator terminals not found for every class: {[len(c) for c in classes]}"}
+    cmp_rule_terms = {str(r.expansion[0].name) for r in M.rules if str(r.origin.name) == "compare_op"}
+
+    def rules_applying(ts):
+        """rules that combine two operands with one of the operator terminals ts (directly, or through compare_op)"""
+        out = []
+        for i, r in enumerate(M.rules):
+            if len(r.expansion) != 3:
+                continue
+            mid = str(r.expansion[1].name)
+            if mid in ts or (mid == "compare_op" and (ts & cmp_rule_terms)):
+                out.append(i)
+        return out
+    rule_sets = [rules_applying(ts) for ts in classes]
+    if not all(rule_sets):
+        return {"verdict": "INCONCLUSIVE", "detail": "no rule applies some operator class"}
+    # token types of the fixed part from the real scanner
+    toks, ok = M.real_tokens("CLASS EXPRESSION ( 1 + 2 + 3 ) END")
+    if ok is not True or len(toks) != 10:
+        return {"verdict": "INCONCLUSIVE", "detail": f"template does not lex to 10 tokens: {ok}"}
+    base = M.effective(toks)
+    op1, op2 = z3.BitVec("op1", W), z3.BitVec("op2", W)
+    cells = [V(M.tid[t]) for t in base]
+    cells[4], cells[6] = op1, op2
+    S, events, st = M.bmc(cells, depth, steps)
+    S.set("timeout", 900000)
+    allops = sorted(set().union(*classes))
+    S.add(z3.Or([op1 == M.tid[t] for t in allops]), z3.Or([op2 == M.tid[t] for t in allops]))
+
+    def cls(op):
+        e = V(9)
+        for ci, ts in enumerate(classes):
+            e = z3.If(z3.Or([op == M.tid[t] for t in ts]), V(ci), e)
+        return e
+
+    def first_red(rs):
+        e = V(4000)
+        for ev in reversed(events):
+            e = z3.If(z3.And(ev["running"], ev["is_red"], z3.Or([ev["r"] == k for k in rs])), V(ev["j"]), e)
+        return e
+
+    def first_red_pos(rs):
+        e = V(4000)
+        for ev in reversed(events):
+            e = z3.If(z3.And(ev["running"], ev["is_red"], z3.Or([ev["r"] == k for k in rs])), ev["pos"], e)
+        return e
+    c1, c2 = cls(op1), cls(op2)
+    fr = [first_red(rs) for rs in rule_sets]
+    frp = [first_red_pos(rs) for rs in rule_sets]
+    sel_fr = lambda c: M.sel(fr, c)
+    sel_frp = lambda c: M.sel(frp, c)
+    good = z3.And(st[-1] == 1,
+                  z3.Implies(c1 != c2, z3.If(z3.UGT(c1, c2), z3.ULT(sel_fr(c1), sel_fr(c2)), z3.ULT(sel_fr(c2), sel_fr(c1)))),
+                  z3.Implies(c1 == c2, sel_frp(c1) == 6))          # reduced with OP2 as look-ahead, before operand 3 is shifted
+    S.push()
+    S.add(z3.Not(good), st[-1] != 3, st[-1] != 0)
+    r = str(S.check())
+    res = {"queries": 3, "extra": {"operators": len(allops), "pairs": len(allops) ** 2, "classes": [sorted(c) for c in classes], "steps": steps, "depth": depth}}
+    names = {v: k for k, v in M.tid.items()}
+    spelling = {}
+    for t in M.P.lalr.terminals:
+        if type(t.pattern).__name__ == "PatternStr":
+            spelling[t.name] = t.pattern.value
+    if r == "sat":
+        m = S.model()
+        o1, o2 = names[m.eval(op1).as_long()], names[m.eval(op2).as_long()]
+        k1 = [i for i, ts in enumerate(classes) if o1 in ts][0]
+        k2 = [i for i, ts in enumerate(classes) if o2 in ts][0]
+        res.update(verdict="CEX", detail=f"( 1 {spelling.get(o1, o1)} 2 {spelling.get(o2, o2)} 3 ): operators are not reduced in precedence / left-associative order",
+                   cex={"op1": o1, "op2": o2}, replay_code=PREC_REPLAY % (spelling.get(o1, o1), spelling.get(o2, o2), k1, k2), solver_s=time.time() - t0)
+        return res
+    if r != "unsat":
+        res.update(verdict="INCONCLUSIVE", detail=f"solver: {r}", solver_s=time.time() - t0)
+        return res
+    S.pop()
+    S.push()
+    S.add(z3.Or(st[-1] == 3, st[-1] == 0))
+    rb = str(S.check())
+    S.pop()
+    S.add(good, c1 != c2)
+    tw = str(S.check())
+    if rb != "unsat" or tw != "sat":
+        res.update(verdict="INCONCLUSIVE", detail=f"unwinding {rb}, twin {tw}", solver_s=time.time() - t0)
+        return res
+    m = S.model()
+    res.update(verdict="PROVED-IN-BOUND", detail="unsat", witness=[spelling.get(names[m.eval(op1).as_long()]), spelling.get(names[m.eval(op2).as_long()])], solver_s=time.time() - t0)
+    return res
